@@ -105,6 +105,12 @@ def _journal_script(first, jopen):
                       ""]).encode()
 
 
+def _no_journal(img):
+    """tune2fs refuses to drop the journal of a filesystem that keeps an orphan file"""
+    with I.Image(img) as im:
+        return "^has_journal,^orphan_file" if im.sb.has_compat("orphan_file") else "^has_journal"
+
+
 def build_bases(ctx, bdir, corpus):
     """returns (bases, problems).  bases[cls][name] = {role: path, ...}"""
     os.makedirs(bdir, exist_ok=True)
@@ -145,7 +151,7 @@ def build_bases(ctx, bdir, corpus):
         juuid = "11111111-2222-3333-4444-5555555555%02d" % len(bases["xjrnl"])
         _step(ctx, problems, "mke2fs", ["-q", "-F", "-O", "journal_dev", "-b", str(bs), "-U", juuid, jnl],
               what="mke2fs journal_dev")
-        _step(ctx, problems, "tune2fs", ["-O", "^has_journal", img], what="drop internal journal")
+        _step(ctx, problems, "tune2fs", ["-O", _no_journal(img), img], what="drop internal journal")
         _step(ctx, problems, "debugfs", ["-w", "-f", "-", img],
               stdin=("ssv journal_inum 0\nfeature has_journal\nssv journal_dev 0x9999\n"
                      "ssv journal_uuid %s\n" % juuid).encode(), what="attach external journal")
@@ -184,6 +190,8 @@ def build_bases(ctx, bdir, corpus):
         undo = os.path.join(bdir, "%s.undo" % name)
         shutil.copyfile(corpus[src], img)
         if tool == "tune2fs":
+            if args == ["-O", "^has_journal"]:
+                args = ["-O", _no_journal(img)]
             _step(ctx, problems, "tune2fs", ["-z", undo] + args + [img], what="undo by tune2fs")
         elif tool == "debugfs":
             _step(ctx, problems, "debugfs", ["-w", "-z", undo, "-f", "-", img],
@@ -647,7 +655,9 @@ def main(tier, seed, replay=None, scale=1.0):
         def hang_key(binary, vv, r):
             if vv.get("hang_func"):
                 return "C06 %s hang in %s" % (binary, vv["hang_func"])
-            return "C06 %s hang %s" % (binary, _image_class(r))
+            # no frame: the specific input (a class of corrupted objects would hide other hangs)
+            return "C06 %s hang %s: %s" % (binary, r.get("base"), "; ".join(
+                "%s.%s %s %s" % tuple(d) for d in (r.get("descr") or [])))
         todo = {}
         for r in results[len(bl_items):]:
             for p in r.get("procs", []):
